@@ -94,9 +94,9 @@ def op_lookup(rng, length=None, maxlen=184):
     return {'k': 'lookup', 'path': rng.text(n), 'vnode': rng.pick([0, 0, 1, 2, 3, 3]) if rng.chance(0.25) else rng.randrange(1, 1 << 48)}     # few distinct ids: different lookups often share one
 
 
-def op_gstr(rng, sid, length=None):
+def op_gstr(rng, sid, length=None, allow_empty=False):
     n = draw_len(rng, 120) if length is None else length
-    return {'k': 'gstr', 'id': sid, 'dbgid': rng.randrange(0, 1 << 32), 'text': rng.text(max(1, n))}
+    return {'k': 'gstr', 'id': sid, 'dbgid': rng.randrange(0, 1 << 32), 'text': rng.text(n if allow_empty else max(1, n))}
 
 
 def op_window(rng, name, ctx, context=True, nested=None):
@@ -324,7 +324,7 @@ def gen_ops(rng, ctx, n_ops, mix=None, depth=0):
     return ops
 
 
-SPECIAL_TIDS = [(1 << 61) - 1, 1 << 61, 1 << 32, (1 << 63) + 1, (1 << 64) - 1, 1, 2]
+SPECIAL_TIDS = [0, 0, (1 << 61) - 1, 1 << 61, 1 << 32, (1 << 63) + 1, (1 << 64) - 1, 1, 2]
 
 
 def gen_threads(rng, nthreads, ops_lo=1, ops_hi=8, mix=None, peers=False):
